@@ -260,6 +260,14 @@ def full_run(case, files, sb, workdir, out):
             dst = pagedir + "/" + path + f
             if not os.path.isfile(dst) or open(dst, "rb").read() != open(src, "rb").read():
                 findings.append(("full/file-not-copied", "file %s%s was not copied next to its page" % (path, f), {"full": True}))
+        if d["index"].get("copy_subdir_empty"):
+            out["probes"]["copy_subdir_local_override"] = out["probes"].get("copy_subdir_local_override", 0) + 1
+            if not any(PM.has_title(p) for p in d["pages"].values()):
+                # (with sibling pages FORD copies for each of them with their own -- project-wide -- setting)
+                for a in d["assets"]:
+                    if os.path.exists(pagedir + "/" + path + a):
+                        findings.append(("full/copy_subdir-override-ignored", "%sindex.md overrides copy_subdir with nothing, yet %s%s was copied" % (path, path, a), {"full": True}))
+            continue
         for a in d["assets"]:
             for rel in ("img.png", "deep/data.txt"):
                 dst = pagedir + "/" + path + a + "/" + rel
